@@ -25,6 +25,12 @@ Sub-spaces
            D*t/v, t/(v*D), D2*t/v (the total is dimensionless, the factor must still be the plain product) (complete)
            + one fixed struct window {%, [pi]2, km, #SLEN, m2, daar} (km/#SLEN and m2/daar cancel)
 
+  repeat   the SAME symbol two or three times among the terms of one product/quotient (exponents really accumulate):
+           for 16 core spellings t (m km cm mm s ms kg g N kN J h Pa eV [c] #SLEN) all 2- and 3-leaf expressions
+           over {t, t2, t-1, t1:2, kg, s2} and all 4-leaf expressions over {t, kg, s2} (nesting <= 2) in which t
+           occurs at least twice (m*m*m, m/m, kg*m*m/s2, m*s2*m, (m*m)/m ...); every other valid spelling t in 16
+           templates (t*t*t, t*t/t, t/(t*t), t*s*t, kg*t*t/s2, N*t/t, t2*t, t*t2, t1:2*t*t1:2 ...)       (complete)
+
   table    every row of the three tables is validated against the schema of units_ref.SCHEMA before it is adopted as
            specification (prefixes: True / False / list of known prefixes; magnitude: finite number > 0; dimensions:
            8 integers or pairs); a malformed cell is reported as failure sub 'table', behaviour 'malformed-row' and
@@ -37,6 +43,14 @@ replayable because the case carries the string); a fixed probe set (m with every
 every 1000 cases; observed exponents beyond +-10^4 are a failure at once.  After the first such finding the worker
 stops executing cases (counted as not-executed:library-state-corrupted) instead of feeding an ever more corrupted
 library - a violation is reported quickly, never a hang.
+
+Every accepted string of every sub-space is followed IN THE SAME CASE by plain probe parses: the exponent-less
+symbol s, and - when a spelling occurs twice - that spelling exponent-less, with the exponent as written and negated.
+They must read as the tables say (behaviours 'next-valid-parse-differs' / 'atom-changed-by-earlier-parse'), so a parse
+that corrupts a shared module constant is reported by a single replayable case.  Module-level state of
+scinumtools.units.* (every container and every library object bound at module level, e.g. a shared default
+exponent or a memo dictionary; the three unit tables separately) is snapshotted per process and restored in place
+after EVERY case, so a leak cannot travel from one case to the next (histogram key 'module-state-restored').
 
 History dimension: every string that must be rejected is parsed four times in the same process (BaseUnits twice,
 Quantity(1, .) twice) and has to be rejected every time; every string that must be accepted is parsed by BaseUnits and
@@ -58,7 +72,8 @@ LEVEL = "exploration"
 RULE = ("a case is one distinct unit string generated from a derivation (prefix, symbol, exponent spelling, "
         "product/quotient/parenthesis tree, numeric factors, inserted foreign item); strings are distinct inside every "
         "sub-space and between atom and insert (sweep and struct share only the strings t*t and t/t of window atoms "
-        "with exponent 1, < 0.01 %); non-trivial = everything except a bare table symbol without prefix and exponent")
+        "with exponent 1, < 0.01 %; repeat shares with struct only strings made of one window atom of exponent 1, "
+        "e.g. km*km*km, < 0.1 %); non-trivial = everything except a bare table symbol without prefix and exponent")
 ASSUMPTIONS = [
     "the published tables (UNIT_PREFIXES, UNIT_STANDARD, QUANTITY_UNITS) are the specification; they are read as data "
     "once per process and must be unambiguous (no spelling producible in two ways; checked at start-up)",
@@ -82,7 +97,29 @@ N_INSERT_SHARDS = 24
 N_SWEEP_SHARDS = 8
 N_MIX_SHARDS = 16
 N_CANCEL_SHARDS = 8
+N_REPEAT_TPL_SHARDS = 8
 RTOL = 1e-12
+REPEAT_CORE = ["m", "km", "cm", "mm", "s", "ms", "kg", "g", "N", "kN", "J", "h", "Pa", "eV", "[c]", "#SLEN"]
+REPEAT_EXPS = [1, 2, -1, F(1, 2)]
+REPEAT_PARTNERS = [("kg", 1), ("s", 2)]
+REPEAT_TEMPLATES = [  # over t = every valid spelling outside REPEAT_CORE (same token syntax as SWEEP)
+    ([["t", 1], "*", ["t", 1], "*", ["t", 1]]),
+    ([["t", 1], "*", ["t", 1], "/", ["t", 1]]),
+    ([["t", 1], "/", ["t", 1], "/", ["t", 1]]),
+    (["t", 1], "/", "(", ["t", 1], "*", ["t", 1], ")"),
+    ("(", ["t", 1], "*", ["t", 1], ")", "/", ["t", 1]),
+    ([["t", 1], "*", ["s", 1], "*", ["t", 1]]),
+    ([["kg", 1], "*", ["t", 1], "*", ["t", 1], "/", ["s", 2]]),
+    ([["N", 1], "*", ["t", 1], "/", ["t", 1]]),
+    ([["t", 2], "*", ["t", 1]]),
+    ([["t", 1], "*", ["t", 2]]),
+    ([["t", 1], "/", ["t", 2]]),
+    ([["t", -1], "*", ["t", 1]]),
+    ("(", ["t", 1], "*", ["t", 1], ")", "*", "(", ["t", 1], "/", ["s", 1], ")"),
+    (["kg", 1], "/", "(", ["t", 1], "*", ["t", 1], ")"),
+    ([["t", F(1, 2)], "*", ["t", 1], "*", ["t", F(1, 2)]]),
+    ("(", ["t", 1], ")", "*", "(", ["t", 1], ")"),
+]
 
 _REF = None
 _POISONED = False        # this process has seen the library corrupt its own state: stop executing cases
@@ -96,6 +133,106 @@ def init_worker():
     global _REF
     _REF = units_ref.load()
     isolation.tables_snapshot()
+    _modstate_snapshot()
+
+
+# ----------------------------------------------------------------------------------------------- module-level state
+# Everything mutable that is bound at module level in scinumtools.units.* (containers, and instances of library
+# classes such as a shared default exponent) except the three unit tables (mc/isolation.py restores those).
+_MODSTATE = None
+
+
+def _obj_state(val):
+    import copy
+    if isinstance(val, (list, dict, set)):
+        return copy.deepcopy(val)
+    st = {}
+    for klass in type(val).__mro__:
+        for name in getattr(klass, "__slots__", ()) or ():
+            if hasattr(val, name):
+                st[name] = copy.deepcopy(getattr(val, name))
+    d = getattr(val, "__dict__", None)
+    if isinstance(d, dict):
+        for name, v in d.items():
+            st[name] = copy.deepcopy(v)
+    return st
+
+
+def _obj_differs(val, pristine):
+    try:
+        cur = val if isinstance(val, (list, dict, set)) else _obj_state_shallow(val)
+        return not bool(cur == pristine)
+    except Exception:
+        return repr(val) != repr(pristine)
+
+
+def _obj_state_shallow(val):
+    st = {}
+    for klass in type(val).__mro__:
+        for name in getattr(klass, "__slots__", ()) or ():
+            if hasattr(val, name):
+                st[name] = getattr(val, name)
+    d = getattr(val, "__dict__", None)
+    if isinstance(d, dict):
+        st.update(d)
+    return st
+
+
+def _modstate_snapshot():
+    global _MODSTATE
+    import sys
+    _lib()
+    slots, seen = [], set()
+    for mname, mod in sorted(sys.modules.items()):
+        if mod is None or not (mname == "scinumtools.units" or mname.startswith("scinumtools.units.")):
+            continue
+        for name, val in list(vars(mod).items()):
+            if name.startswith("__") or name in ("UNIT_STANDARD", "UNIT_PREFIXES", "UNIT_TYPES"):
+                continue
+            if isinstance(val, type) or callable(val):
+                continue
+            lib_obj = (type(val).__module__ or "").startswith("scinumtools")
+            if not (isinstance(val, (list, dict, set)) or lib_obj):
+                continue
+            if type(val).__name__ == "ParameterTable":
+                continue
+            try:
+                st = _obj_state(val)
+            except Exception:
+                continue
+            slots.append((mname, name, mod, val, st, id(val) in seen))
+            seen.add(id(val))
+    _MODSTATE = slots
+
+
+def _modstate_restore():
+    """restore in place (and re-bind a replaced name); returns the names that had changed"""
+    import copy
+    changed = []
+    for mname, name, mod, val, st, alias in _MODSTATE or ():
+        if vars(mod).get(name) is not val:
+            changed.append("%s.%s:rebound" % (mname, name))
+            setattr(mod, name, val)
+        if alias or not _obj_differs(val, st):
+            continue
+        changed.append("%s.%s" % (mname, name))
+        fresh = copy.deepcopy(st)
+        if isinstance(val, list):
+            val[:] = fresh
+        elif isinstance(val, (dict, set)):
+            val.clear()
+            val.update(fresh)
+        else:
+            for k, v in fresh.items():
+                try:
+                    setattr(val, k, v)
+                except Exception:
+                    pass
+            d = getattr(val, "__dict__", None)
+            if isinstance(d, dict):
+                for k in [k for k in d if k not in fresh]:
+                    del d[k]
+    return changed
 
 
 # ----------------------------------------------------------------------------------------------- derivations
@@ -311,7 +448,7 @@ def _table_failure(case, exp, obs):
 
 def _fixed_alphabet_missing():
     """fixed spellings the sub-spaces are built on; if the tables no longer provide them only 'table' can run"""
-    need = [a for a, _ in CORE + DIMLESS_WINDOW] + DIMLESS + ["m", "s", "kg"]
+    need = [a for a, _ in CORE + DIMLESS_WINDOW] + DIMLESS + ["m", "s", "kg"] + REPEAT_CORE
     return sorted(set(n for n in need if n not in _REF.spellings))
 
 
@@ -341,7 +478,7 @@ def check_case(case):
             if attempt in (1, 3):
                 # ... nor anything that changes what the NEXT valid string means (history: rejected string, then a
                 # plain valid one, through the entry point that has just failed)
-                bad = _atom_probe("s", F(1)) if entry == "BaseUnits" else _quantity_probe()
+                bad = _atom_probe("s", F(1), bare=True) if entry == "BaseUnits" else _quantity_probe()
                 if bad is not None:
                     return failure(sub, case, dict(then_parsed=bad[0]), dict(then_parsed=bad[1]),
                                    tags=tags + ["valid-parse-after-rejected", "entry=" + entry],
@@ -425,6 +562,12 @@ def check_case(case):
                        behaviour="wrong-factor")
     # a parse must not change what its atoms mean afterwards (shared exponent objects, caches ...)
     names = [t for t, _ in terms]
+    for t in sorted(set(n for n in names if names.count(n) >= 2)):
+        bad = _atom_probe(t, F(1), bare=True)                          # the repeated spelling, exponent-less
+        if bad is not None:
+            _poison()
+            return failure(sub, case, bad[0], bad[1], tags=tags + ["unit-occurs-twice", "probe-exponent-less"],
+                           behaviour="atom-changed-by-earlier-parse")
     for t, e in terms:
         if names.count(t) < 2:
             continue
@@ -434,6 +577,12 @@ def check_case(case):
                 _poison()
                 return failure(sub, case, bad[0], bad[1], tags=tags + ["unit-occurs-twice"],
                                behaviour="atom-changed-by-earlier-parse")
+    # ... nor what the NEXT plain valid string means (history: accepted string, then an exponent-less symbol)
+    bad = _atom_probe("s", F(1), bare=True)
+    if bad is not None:
+        _poison()
+        return failure(sub, case, dict(then_parsed=bad[0]), dict(then_parsed=bad[1]),
+                       tags=tags + ["valid-parse-after-accepted"], behaviour="next-valid-parse-differs")
     return None
 
 
@@ -442,12 +591,13 @@ def _poison():
     _POISONED = True
 
 
-def _atom_probe(t, e):
-    """parse the single atom t^e and compare with the tables; None if right, else (expected, observed)"""
+def _atom_probe(t, e, bare=False):
+    """parse the single atom t^e and compare with the tables; None if right, else (expected, observed).
+    bare: exponent 1 is written without exponent (the plain symbol), otherwise as an explicit 1"""
     BaseUnits, _ = _lib()
     if e == 0:
         return None
-    atext = t + (units_ref.exp_text(e) or "1")
+    atext = t + (units_ref.exp_text(e) or ("" if bare else "1"))
     efac, _ = _REF.terms_factor([(t, e)])
     if efac is None:
         return None
@@ -531,6 +681,8 @@ def plan(tier, seed):
     shards += [("numeric", a, None) for a in range(len(CORE) + len(NUMBERS))]
     shards += [("mixexp", i, N_MIX_SHARDS) for i in range(N_MIX_SHARDS)]
     shards += [("cancel", i, N_CANCEL_SHARDS) for i in range(N_CANCEL_SHARDS)]
+    shards += [("repeat", "core", i) for i in range(len(REPEAT_CORE))]
+    shards += [("repeat", "tpl", i) for i in range(N_REPEAT_TPL_SHARDS)]
     # the complete single-atom sub-spaces first: they yield the smallest counterexamples
     shards.sort(key=lambda d: 1 if d[0] == "struct" else 0)
     return shards
@@ -555,6 +707,10 @@ def _run(sh, case, nontrivial=True, sample=False):
     if (sh.evaluations % 1000 == 0 or (r is not None and r != "skip")) and not _probe_set():
         _poison()                 # after any failure and every 1000 cases: is the library still sane?
         sh.count("probe-failed")
+    leaked = _modstate_restore()
+    if leaked:
+        sh.count("module-state-restored")
+        sh.add_to_set("module_state_leaks", leaked[0])
     if r == "skip":
         sh.count(case["sub"] + ":skipped-out-of-float-range")
         return
@@ -676,6 +832,39 @@ def run_shard(desc):
                         ("%s2*%s/%s" % (d, t, v), [((d, 2), 1), ((t, 1), 1), ((v, 1), -1)]))):
                     _run(sh, dict(sub="cancel", text=text, expect=_expect(signed), tags=["template:%d" % k]),
                          sample=(n == 4 and desc[1] == 0 and d == "%" and k == 0))
+    elif kind == "repeat" and desc[1] == "tpl":
+        names = [t for t in sorted(_REF.spellings) if t not in REPEAT_CORE]
+        for n, t in enumerate(names[desc[2]::N_REPEAT_TPL_SHARDS]):
+            for k, tpl in enumerate(REPEAT_TEMPLATES):
+                text, signed = _sweep_case(tpl, t)
+                _run(sh, dict(sub="repeat", text=text, expect=_expect(signed), tags=["template:%d" % k]),
+                     sample=(n == 5 and k == 6 and desc[2] == 0))
+    elif kind == "repeat":
+        t = REPEAT_CORE[desc[2]]
+        seen = set()
+        alpha3 = [(t, e) for e in REPEAT_EXPS] + list(REPEAT_PARTNERS)
+        alpha4 = [(t, 1)] + list(REPEAT_PARTNERS)
+        for n, alpha in ((2, alpha3[:len(REPEAT_EXPS)]), (3, alpha3), (4, alpha4)):
+            for shape in _shapes(n, 2):
+                for idx in _product([list(range(len(alpha)))] * n):
+                    leaves = [alpha[i] for i in idx]
+                    lnames = [l[0] for l in leaves]
+                    if lnames.count(t) < 2:
+                        continue                      # the symbol has to occur at least twice
+                    rep2 = [c for c in REPEAT_CORE if lnames.count(c) >= 2]
+                    if rep2[0] != t:
+                        continue                      # two repeated core symbols: the case belongs to the first one
+                    for ops in _product([["*", "/"]] * (n - 1)):
+                        if n == 2 and ((leaves[0][1], leaves[1][1]) == (1, 1) or
+                                       ((leaves[0][1], leaves[1][1]) == (2, 1) and ops == ["/"])):
+                            continue                  # t*t, t/t, t2/t: sweep sub-space
+                        text, signed = _render(shape, leaves, ops)
+                        if text in seen:
+                            continue                  # partner equal to the symbol itself (kg, s)
+                        seen.add(text)
+                        _run(sh, dict(sub="repeat", text=text, expect=_expect(signed),
+                                      tags=["leaves:%d" % n, "core-symbol"]),
+                             sample=(n == 4 and desc[2] == 0 and idx == [1, 0, 0, 2] and ops == ["*", "*", "/"]))
     else:
         raise HarnessError("unknown shard %r" % (desc,))
     _tables_guard(sh)
@@ -723,7 +912,7 @@ def finish(total, tier, seed):
         raise HarnessError("vacuous atom sub-space: %r" % (h,))
     if h.get("insert:reject-expected", 0) < 1000:     # valid results of an insertion belong to the atom sub-space
         raise HarnessError("vacuous insert sub-space: %r" % (h,))
-    for sub in ("sweep", "struct", "numeric", "mixexp", "cancel"):
+    for sub in ("sweep", "struct", "numeric", "mixexp", "cancel", "repeat"):
         if h.get(sub + ":accept-expected", 0) < 1000:
             raise HarnessError("vacuous %s sub-space: %r" % (sub, h))
     skipped = sum(v for k, v in h.items() if k.endswith("skipped-out-of-float-range"))
@@ -734,6 +923,12 @@ def finish(total, tier, seed):
         structure=dict(max_leaves=4, max_nesting=2, shapes={n: len(_shapes(n, 2)) for n in (2, 3, 4)},
                        alphabet_size=6, windows_total=NWINDOWS + 2,
                        windows_explored=sorted(total.sets.get("windows", []))),
+        repeated_symbol=dict(core_spellings=REPEAT_CORE, exponents=[units_ref.exp_text(e) or "1" for e in REPEAT_EXPS],
+                             partners=[_leaf_text(p) for p in REPEAT_PARTNERS], max_leaves=4,
+                             templates_per_other_spelling=len(REPEAT_TEMPLATES)),
+        probes_after_accepted_string=["s (exponent-less)", "each repeated spelling: exponent-less, as written, negated"],
+        module_state=dict(slots_restored_after_every_case=sorted("%s.%s" % (x[0], x[1]) for x in _MODSTATE or () if not x[5]),
+                          leaks_undone=sorted(total.sets.get("module_state_leaks", []))),
         skipped_out_of_float_range=skipped, caps_hit=[],
         relative_tolerance=RTOL,
     )
@@ -747,7 +942,11 @@ MANIFEST = dict(
          "expressions with <= 4 leaves, nesting <= 2 over 6-atom alphabets (core + dimensionless window + 1 of 24 table windows in quick, all "
          "in thorough); numeric factors in all <= 3-leaf expressions; every valid spelling repeated with two different "
          "exponents out of 7 (merged denominators up to 28); every valid spelling cancelling against another spelling of "
-         "its dimension next to %, ppth, [pi], [N_0]. Every accepted string is observed through BaseUnits and through "
+         "its dimension next to %, ppth, [pi], [N_0]; the same symbol two to four times in one product/quotient: all "
+         "2-3-leaf expressions over {t, t2, t-1, t1:2, kg, s2} and 4-leaf over {t, kg, s2} with t at least twice for 16 "
+         "core spellings, 16 repeat templates for every other valid spelling. Every accepted string is followed in the "
+         "same case by plain probe parses (exponent-less s; a repeated spelling exponent-less, as written and negated) that "
+         "must read as the tables say, and module-level state of scinumtools.units.* is restored after every case. Every accepted string is observed through BaseUnits and through "
          "Quantity(1, text). Every must-reject string is parsed 4 times in one process "
          "and must be rejected each time, and a plain valid string parsed through the same entry point right after the first and third rejection must read as the tables say. Factor (rel 1e-12), exact rational dimension "
          "vector, accept/reject verdict, meaning of the rendered text and the parse-render-parse round trip are "
